@@ -41,7 +41,7 @@ ASSUMPTIONS = [
     "file form: extra columns are floats (the reader's documented behaviour)",
 ]
 REQUIRED = ["tree_form_checked", "table_form_checked", "file_form_checked", "idempotence_checked",
-            "tap_sort_nodes_impl", "is_sorted_true", "is_sorted_on_inputs", "tree_root_not_at_0"]
+            "tap_sort_nodes_impl", "is_sorted_true", "is_sorted_on_inputs", "tree_root_not_at_0", "size_sweep_cases"]
 FLOOR = {"quick": 1000, "thorough": 60000}
 SHARDS = {"quick": 8, "thorough": 16}
 
@@ -193,6 +193,8 @@ def _make_table(spec, case):
         cols["label"] = np.array([f"n{int(t)}" for t in spec["tag"]], dtype=object)
     elif ex == "bool":
         cols["flag"] = (spec["tag"] % 2 == 0)
+    if case.get("idtype") == "int32":  # tables typed like the library's own trees
+        cols["id"], cols["pid"] = cols["id"].astype(np.int32), cols["pid"].astype(np.int32)
     df = pd.DataFrame({k: np.asarray(v)[order] for k, v in cols.items()})
     return df
 
@@ -342,6 +344,16 @@ def run(ctx):
                     if rng.random() < 0.3:
                         case["derived"] = int(rng.integers(1, 2**31 - 1))
                 ctx.case(case, nontrivial=nontrivial, klass=f"{form}/{rc['shape']}")
+                execute(ctx, case)
+        # sizes random cases never have (powers of two, block sizes, big branched trees) and
+        # tables whose id columns are 32 bits wide with sparse ids
+        for j, rc in enumerate(G.sweep_recipes(ctx, large=2, extras=1)):
+            for form in (("tree", "table") if rc["n"] <= 10000 else ("tree", "table_")):
+                case = {"tree": rc, "form": form, "ids": "sparse" if form != "tree" else "plain",
+                        "order": "shuffle" if form != "tree" else "asis", "xcol": "none",
+                        "tseed": 7 + j, "idtype": "int32" if j % 2 == 0 else "int64"}
+                ctx.case(case, klass=f"size-sweep/{form}")
+                ctx.count("size_sweep_cases")
                 execute(ctx, case)
         # one deep chain per shard (stack discipline on deep inputs)
         n_deep = 20000 if ctx.quick else 100000
